@@ -368,12 +368,12 @@ Qed.
 
 (* the actor gradient flows (with -1) only through the strictly smallest critic; every other critic gets 0 *)
 Lemma sac_actor_dq_general alpha lp pre x post : pre ++ post <> [] ->
-  (x < min_list (pre ++ post) -> is_derive (fun y => sac_actor_term alpha lp (pre ++ y :: post)) x (-1)) /\
-  (min_list (pre ++ post) < x -> is_derive (fun y => sac_actor_term alpha lp (pre ++ y :: post)) x 0).
+  (x < min_list (pre ++ post) -> is_derive (fun y : R => sac_actor_term alpha lp (pre ++ y :: post)) x (-1)) /\
+  (min_list (pre ++ post) < x -> is_derive (fun y : R => sac_actor_term alpha lp (pre ++ y :: post)) x 0).
 Proof.
   intros H. set (m := min_list (pre ++ post)). split; intros Hx.
   - apply (derive_local_affine _ x (-1) (alpha * lp) (m - x)); [lra|].
-    intros y Hy. apply Rabs_lt_both in Hy. cbv beta. unfold sac_actor_term. Show. rewrite (min_list_insert pre y post H).
+    intros y Hy. apply Rabs_lt_both in Hy. cbv beta. unfold sac_actor_term. rewrite (min_list_insert pre y post H).
     fold m. rewrite Rmin_left by lra. ring.
   - apply (derive_local_affine _ x 0 (alpha * lp - m) (x - m)); [lra|].
     intros y Hy. apply Rabs_lt_both in Hy. cbv beta. unfold sac_actor_term. rewrite (min_list_insert pre y post H).
